@@ -83,6 +83,88 @@ func checkC15(c *Ctx) {
 			}
 		}
 	}
+	// Put: every block position class for every length (blocks lying inside the slice, incl. ending exactly at len
+	// and at 0x10000, the empty block, the whole slice)
+	for _, l := range []int{0, 1, 2, 255, 256, 257, 32768, 65535, 65536} {
+		for _, bl := range []int{0, 1, 2, 3, 255, 256, l / 2, l - 1, l} {
+			if bl < 0 || bl > l {
+				continue
+			}
+			for _, start := range []int{0, 1, 2, 255, 256, (l - bl) / 2, l - bl - 2, l - bl - 1, l - bl} {
+				if start < 0 || start+bl > l || start > 0xFFFF {
+					continue
+				}
+				dm := make(z80.DumbMemory, l)
+				for i := range dm {
+					dm[i] = 0x11
+				}
+				blk := make([]uint8, bl)
+				for i := range blk {
+					blk[i] = uint8(0x80 | i&0x7F)
+				}
+				var ret z80.DumbMemory
+				if p := guard(func() { ret = dm.Put(uint16(start), blk...) }); p != nil {
+					fail("DumbMemory-Put", int64(l)*1000+int64(bl), c15Op{"DumbMemory", l, []string{fmt.Sprintf("Put(%04X, %d bytes)", start, bl)}}, fmt.Sprintf("len %d: Put(%04X, %d bytes) (block inside the slice) panicked: %v", l, start, bl, p))
+					continue
+				}
+				n++
+				nt++
+				okp := len(ret) == l && len(dm) == l
+				for i := 0; i < l && okp; i++ {
+					want := uint8(0x11)
+					if i >= start && i < start+bl {
+						want = blk[i-start]
+					}
+					if dm[i] != want {
+						okp = false
+						fail("DumbMemory-Put", int64(l)*1000+int64(bl), c15Op{"DumbMemory", l, []string{fmt.Sprintf("Put(%04X, %d bytes)", start, bl)}}, fmt.Sprintf("len %d: after Put(%04X, %d bytes) byte %04X is %02X, want %02X", l, start, bl, i, dm[i], want))
+					}
+				}
+				if !okp && len(ret) != l {
+					fail("DumbMemory-Put", int64(l)*1000+int64(bl), c15Op{"DumbMemory", l, nil}, "Put changed the length / returned another slice")
+				}
+			}
+		}
+	}
+	// MapMemory.Put: blocks anywhere incl. wrapping past 0xFFFF, long blocks
+	for _, start := range []int{0, 1, 0x7FFF, 0xFFFD, 0xFFFE, 0xFFFF} {
+		for _, bl := range []int{0, 1, 2, 3, 4, 256, 65535, 65536} {
+			mm := z80.MapMemory{}
+			mm.Set(uint16(start)-1, 0x22)
+			blk := make([]uint8, bl)
+			for i := range blk {
+				blk[i] = uint8(i*5 + 1)
+			}
+			if p := guard(func() { mm.Put(uint16(start), blk...) }); p != nil {
+				fail("MapMemory-Put", int64(start), c15Op{"MapMemory", 0, []string{fmt.Sprintf("Put(%04X, %d bytes)", start, bl)}}, fmt.Sprintf("Put(%04X, %d bytes) panicked: %v", start, bl, p))
+				continue
+			}
+			n++
+			nt++
+			for i := 0; i < bl; i++ {
+				a := uint16(start + i)
+				// later bytes overwrite earlier ones when the block is longer than the address space
+				want := blk[i]
+				for j := i + 65536; j < bl; j += 65536 {
+					want = blk[j]
+				}
+				if mm.Get(a) != want {
+					fail("MapMemory-Put", int64(start), c15Op{"MapMemory", 0, []string{fmt.Sprintf("Put(%04X, %d bytes)", start, bl)}}, fmt.Sprintf("after Put(%04X, %d bytes): Get(%04X) = %02X want %02X", start, bl, a, mm.Get(a), want))
+					break
+				}
+			}
+			if bl < 65536 {
+				if g := mm.Get(uint16(start) - 1); g != 0x22 {
+					fail("MapMemory-Put", int64(start), c15Op{"MapMemory", 0, nil}, fmt.Sprintf("Put(%04X, %d bytes) changed the byte before the block to %02X", start, bl, g))
+				}
+				if bl > 0 && bl < 65535 {
+					if g := mm.Get(uint16(start + bl)); g != 0xC7 {
+						fail("MapMemory-Put", int64(start), c15Op{"MapMemory", 0, nil}, fmt.Sprintf("Put(%04X, %d bytes) changed the byte after the block to %02X", start, bl, g))
+					}
+				}
+			}
+		}
+	}
 	for _, l := range []int{0, 1, 128, 255, 256, 257} {
 		dio := make(z80.DumbIO, l)
 		for a := 0; a < 256; a++ {
@@ -306,6 +388,38 @@ func c15BFSMap(c *Ctx) (int, int) {
 					front = append(front, node{model, path})
 				}
 			}
+		}
+	}
+	// Equal on every ordered pair of visited states: true exactly for identical contents
+	var all []c15MapState
+	var keys []string
+	for k := range seen {
+		keys = append(keys, k)
+	}
+	sort.Strings(keys)
+	for _, k := range keys {
+		m := c15MapState{}
+		for _, f := range strings.Fields(k) {
+			var a uint16
+			var v uint8
+			fmt.Sscanf(f, "%04X=%02X", &a, &v)
+			m[a] = v
+		}
+		all = append(all, m)
+	}
+	objs := make([]z80.MapMemory, len(all))
+	for i, m := range all {
+		objs[i] = build(m)
+	}
+	for i := range objs {
+		for j := range objs {
+			want := keys[i] == keys[j]
+			var got bool
+			if p := guard(func() { got = objs[i].Equal(objs[j]) }); p != nil || got != want {
+				c.Report("c15/store:MapMemory-equal", int64(i*len(objs)+j), "", c15Op{"MapMemory", 0, []string{"{" + keys[i] + "}.Equal({" + keys[j] + "})"}}, []string{fmt.Sprintf("MapMemory{%s}.Equal(MapMemory{%s}) = %v (panic %v), want %v", keys[i], keys[j], got, p, want)})
+				return len(seen), trans
+			}
+			trans++
 		}
 	}
 	return len(seen), trans
